@@ -115,6 +115,7 @@ MinerChecks(M, g, e) ==
   /\ Chk("C03", "VestExact", VestExact(M), "-", e)
   /\ Chk("C03", "NonNegLedgers", NonNegLedgers(M), "-", e)
   /\ Chk("C01", "MinerSolvent", (e.ok = FALSE) \/ MinerSolvent(M), "-", e)
+  /\ Chk("C01", "MinerSolventRecomputed", (e.ok = FALSE) \/ MinerSolventRecomputed(M), "-", e)
   /\ Chk("C05", "CronWhileFunded", CronWhileFundedLiteral(M),
          IF CronWhileFundedAdjusted(M, g.dep0[M.m]) THEN "F2-no-cron-before-first-precommit" ELSE "-", e)
 
